@@ -6,7 +6,6 @@ import (
 
 	"github.com/grailbio/base/backgroundcontext"
 	"github.com/grailbio/base/compress/zstd"
-	"github.com/grailbio/base/errors"
 	"github.com/grailbio/base/file"
 	"github.com/grailbio/base/log"
 	"github.com/grailbio/bigslice/frame"
@@ -79,9 +78,12 @@ func (r *writethroughReader) Read(ctx context.Context, frame frame.Frame) (int, 
 			return n, writeErr
 		}
 		if err == sliceio.EOF {
-			closeErr := r.zw.Close()
-			errors.CleanUpCtx(ctx, r.file.Close, &closeErr)
-			if closeErr != nil {
+			if closeErr := r.zw.Close(); closeErr != nil {
+				// The compressed stream is incomplete: do not publish it.
+				r.file.Discard(backgroundcontext.Get())
+				return n, closeErr
+			}
+			if closeErr := r.file.Close(ctx); closeErr != nil {
 				return n, closeErr
 			}
 		}
